@@ -14,7 +14,7 @@ from ledger.pin import FileBasedPin     # noqa: E402
 
 ID = "C13"
 LEVEL = "exploration"
-RULE = ("histories of 1..3 queries on one manager with the device state changing (and optionally a reconnection) in between; each: Hypothesis-generated device states (seven independent random hashes, difficulties incl. "
+RULE = ("histories of 1..6 queries on one manager with the device state changing (and optionally a reconnection, and up to three other commands - signing, advancing, other queries, refused requests - served while the device still holds the old state) in between; each: Hypothesis-generated device states (seven independent random hashes, difficulties incl. "
         "0 and 2^288-1, all flag combinations, three networks, random keys / heartbeat messages / "
         "DER signatures with r,s of 1..33 bytes, 0x31 prefix and trailing bytes) x query command "
         "x device mode transitions during uiHeartbeat; every case is non-trivial (all fields "
@@ -25,7 +25,7 @@ FIELD_OF = {1: "best_block", 2: "newest_valid_block", 3: "ancestor_block",
             5: "ancestor_receipts_root", 0x81: "updating.best_block",
             0x82: "updating.newest_valid_block", 0x84: "updating.next_expected_block"}
 NETWORKS = {1: "mainnet", 2: "testnet", 3: "regtest"}
-REQUIRED_LABELS = {t: ["history", "reconnect", "hb-fault", "v1", "cmd:getPubKey", "cmd:blockchainState", "cmd:blockchainParameters",
+REQUIRED_LABELS = {t: ["history", "history>=4", "interlude:getPubKey", "interlude:params", "interlude:advance", "interlude:sign_auth", "interlude:v1", "reconnect", "hb-fault", "v1", "cmd:getPubKey", "cmd:blockchainState", "cmd:blockchainParameters",
                        "cmd:signerHeartbeat", "cmd:uiHeartbeat", "uihb:ok", "uihb:device-error",
                        "diff:0", "diff:max", "sig:0x31", "stale-frame-refused|stale-frame-accepted"] for t in ("quick", "thorough")}
 
@@ -99,6 +99,9 @@ def one_query(draw, tier):
     return c
 
 
+INTERLUDES, interlude = mw.INTERLUDES, mw.interlude
+
+
 def der(sg):
     return refs.der_sig(sg["r"], sg["s"], sg["first"], sg["trailing"])
 
@@ -107,16 +110,21 @@ def der(sg):
 def cases(draw, tier):
     """1..3 queries against ONE manager lifetime; the device state changes between them (an
     advance, a signer upgrade, a reconnection to another device)."""
-    n = draw(st.sampled_from([1, 1, 2, 2, 3]))
+    n = draw(st.sampled_from([1, 1, 2, 2, 3, 3, 4, 6]))
     steps = []
     first = draw(one_query(tier))
     steps.append(first)
     for _ in range(n - 1):
         nxt = draw(one_query(tier))
         if draw(st.booleans()):
-            nxt["cmd"] = first["cmd"]         # the same query again, over a changed device
-            nxt = draw(one_query_of(tier, first["cmd"]))
+            # the same query again (as the first, or as the one before), over a changed device
+            nxt = draw(one_query_of(tier, draw(st.sampled_from([first["cmd"],
+                                                               steps[-1]["cmd"]]))))
         nxt["reconnect"] = draw(st.booleans())
+        # other commands served by the same manager between two queries, while the device still
+        # holds what the previous query reported (whatever they leave behind in the manager must
+        # not show in the next query's reply)
+        nxt["interlude"] = draw(st.lists(st.sampled_from(INTERLUDES), max_size=3))
         steps.append(nxt)
     v1 = all(q["cmd"] == "getPubKey" for q in steps) and draw(st.booleans())
     # the manager may hold the device PIN (it then knows how to get past a bootloader); where
@@ -159,6 +167,11 @@ def run_case(c):
     if len(c["steps"]) >= 2:
         labels.append("history")
     for i, q in enumerate(c["steps"]):
+        if p is not None and q.get("interlude"):
+            w.mode_error = False
+            labels.extend(interlude(p, w, q["interlude"], bool(c.get("v1"))))
+            if len(c["steps"]) >= 4:
+                labels.append("history>=4")
         mark = len(w.log)
         asked = False
         if p is not None and q.get("reconnect"):
